@@ -1,6 +1,6 @@
 import CotengraVerif.Lemmas.SimsProc
 import CotengraVerif.Lemmas.SlicerTree
-import CotengraVerif.Lemmas.HyperGraph
+import CotengraVerif.Lemmas.HyperGraphForest
 
 /-!
 # C18 — internal cost simulators agree; optimizers report the cost of what they return
@@ -387,5 +387,160 @@ theorem reported_flops_counterexample :
     procTotal cexNet (procLeaf cexNet [0]) cexTree = 18 ∧ (cexNet.stats [] [] cexTree).flops = 36 ∧
     (cexNet.stats [] [] cexTree).flops ≠ procTotal cexNet (procLeaf cexNet [0]) cexTree := by
   decide
+
+
+/-! ## hypergraph rule -/
+open HGu
+
+/-- the forest after replaying `path` from the uncontracted network -/
+def hgRun (n : Net) (path : List (Nat × Nat)) : Option (HG × Forest) :=
+  runPath path (HG.ofInputs n.inputs n.output n.sizes, forest0 n.inputs.length)
+
+theorem hg_size_eq (n : Net) (h : HG) (hsd : h.sizeDict = n.sizes) (e : Ix) : h.size e = n.size e := by
+  unfold HG.size
+  rw [hsd, Slicer.size_eq_szOf]; rfl
+
+theorem hg_edgesSize_eq (n : Net) (h : HG) (hsd : h.sizeDict = n.sizes) (es : List Ix) :
+    h.edgesSize es = (es.map n.size).prod := by
+  unfold HG.edgesSize
+  rw [List.prod_eq_foldl]
+  congr 1
+  exact List.map_congr_left (fun e _ => hg_size_eq n h hsd e)
+
+/-- **hg_contract_legs.** For a network without repeated indices, replay *any* sequence of
+    `HyperGraph.contract(i, j)` calls that does not raise. Every node then standing for a
+    contracted sub-tree `node l r` carries each of exactly the leaf-set survivors once
+    (`Net.Surv`, the characterisation of L1 — the tree's legs), and `node_size` is the tree's
+    `get_size`. -/
+theorem hg_contract_legs (n : Net) (hnr : NoRepeat n) (path : List (Nat × Nat)) (h : HG) (F : Forest)
+    (hrun : hgRun n path = some (h, F)) (k : Nat) (l r : BT) (inds : List Ix)
+    (hF : AL.get? F k = some (.node l r)) (hN : AL.get? h.nodes k = some inds) :
+    inds.Nodup ∧ (∀ e, e ∈ inds ↔ n.Surv [] (.node l r) e) ∧
+    (∀ e, e ∈ inds ↔ e ∈ keys (n.legs [] (.node l r))) ∧
+    h.nodeSize k = n.nodeSize [] (.node l r) := by
+  have inv := runPath_inv n hnr path _ _ h F (inv_init n hnr) hrun
+  have hl := inv.lnd k _ hF
+  have hsem : ∀ e, e ∈ inds ↔ n.Surv [] (.node l r) e := inv.sem k _ inds hF hN
+  have hkeys : ∀ e, e ∈ inds ↔ e ∈ keys (n.legs [] (.node l r)) := by
+    intro e; rw [hsem e, Net.mem_legs_iff_surv n [] _ hl.1 hl.2 e]
+  refine ⟨inv.cons.nd k inds hN, hsem, hkeys, ?_⟩
+  unfold HG.nodeSize HG.getNode
+  rw [hN, hg_edgesSize_eq n h inv.sd]
+  unfold nodeSize
+  rw [sizeOfLegs_eq_prod]
+  exact prod_of_same_keys _ _ _ (inv.cons.nd k inds hN) (keys_nodup_legs n [] _) hkeys
+
+/-- no index of input `i` is confined to that tensor and absent from the output -/
+def NoDanglingAt (n : Net) (i : Nat) : Prop := ∀ e ∈ n.term i, Outside n (.leaf i) e
+
+/-- what a forest tree's hypergraph node holds equals the tree's legs, unless it is a leaf with a
+    dangling index -/
+theorem nodeSem_iff_legs (n : Net) (hnr : NoRepeat n) (s : BT) (hd : s.leaves.Nodup)
+    (hb : ∀ i ∈ s.leaves, i < n.inputs.length) (hdang : ∀ i, s = .leaf i → NoDanglingAt n i) (e : Ix) :
+    NodeSem n s e ↔ e ∈ keys (n.legs [] s) := by
+  rw [Net.mem_legs_iff_surv n [] s hd hb e]
+  cases s with
+  | leaf i =>
+    rw [surv_iff n hnr _ hd hb e]
+    show e ∈ n.term i ↔ _
+    constructor
+    · intro h; exact ⟨⟨i, by simp [BT.leaves], h⟩, hdang i rfl e h⟩
+    · rintro ⟨⟨i', hi', h⟩, _⟩
+      simp only [BT.leaves, List.mem_singleton] at hi'
+      subst hi'; exact h
+  | node l r => rfl
+
+/-- **hg_cost_eq_tree_partial.** `contract_pair_cost(i, j)`, read just before the contraction, is
+    the tree's `get_flops` of that step — under the guard that neither operand is an input tensor
+    with a dangling index. (Full statement without the guard: false, see the counter-example.) -/
+theorem hg_cost_eq_tree_partial (n : Net) (hnr : NoRepeat n) (path : List (Nat × Nat)) (h : HG) (F : Forest)
+    (hrun : hgRun n path = some (h, F)) (i j : Nat) (a b : BT) (hij : i ≠ j)
+    (ha : AL.get? F i = some a) (hb : AL.get? F j = some b)
+    (hda : ∀ x, a = .leaf x → NoDanglingAt n x) (hdb : ∀ x, b = .leaf x → NoDanglingAt n x) :
+    h.contractPairCost i j = n.nodeFlops [] (.node a b) := by
+  have inv := runPath_inv n hnr path _ _ h F (inv_init n hnr) hrun
+  have hla := inv.lnd i a ha
+  have hlb := inv.lnd j b hb
+  have hhi : AL.has h.nodes i = true := by rw [← inv.dom i]; exact (AL.has_iff _ _).2 ⟨a, ha⟩
+  have hhj : AL.has h.nodes j = true := by rw [← inv.dom j]; exact (AL.has_iff _ _).2 ⟨b, hb⟩
+  obtain ⟨ii, hii⟩ := (AL.has_iff _ _).1 hhi
+  obtain ⟨ij, hjj⟩ := (AL.has_iff _ _).1 hhj
+  unfold HG.contractPairCost HG.getNode
+  rw [hii, hjj, hg_edgesSize_eq n h inv.sd]
+  show _ = n.sizeOfLegs (n.involved [] (.node a b))
+  rw [sizeOfLegs_eq_prod]
+  apply prod_of_same_keys _ _ _ (HG.nodup_dedup _) (keys_nodup_involved n [] _)
+  intro e
+  show e ∈ dedup (ii ++ ij) ↔ _
+  rw [HG.mem_dedup, List.mem_append, mem_involved_iff, inv.sem i a ii ha hii e, inv.sem j b ij hb hjj e,
+    nodeSem_iff_legs n hnr a hla.1 hla.2 hda e, nodeSem_iff_legs n hnr b hlb.1 hlb.2 hdb e]
+
+def dangNet : Net := { inputs := [[0, 1], [1, 2]], output := [2], sizes := [(0, 2), (1, 3), (2, 4)] }
+
+/-- **hg_cost_counterexample**: on `ab,bc->c` (`a` dangling) the hypergraph charges 2·3·4 = 24 for
+    the only step, the tree 3·4 = 12 (it sums `a` at the leaf); the contracted node and its size
+    agree. (Replayed on the implementation by the harness: known finding.) -/
+theorem hg_cost_counterexample :
+    (HG.ofInputs dangNet.inputs dangNet.output dangNet.sizes).contractPairCost 0 1 = 24 ∧
+    dangNet.nodeFlops [] (.node (.leaf 0) (.leaf 1)) = 12 ∧ ¬ NoDanglingAt dangNet 0 := by
+  refine ⟨by decide, by decide, ?_⟩
+  intro h
+  have := h 0 (by decide)
+  rcases this with ⟨i, h1, h2, h3⟩ | h
+  · have : i = 0 ∨ i = 1 := by
+      have : i < 2 := h1
+      omega
+    rcases this with rfl | rfl
+    · exact h2 (by simp [BT.leaves])
+    · revert h3; decide
+  · revert h; decide
+
+/-! ## the four rules side by side -/
+
+/-- **four_rules_agree.** For one step `node l r` of one tree (distinct in-range leaves), the index
+    set each simulator derives is the set of leaf-set survivors `Net.Surv` (L1), and the sizes /
+    operation counts coincide with the tree's:
+    (1) tree — L1 itself; (2) annealing evaluator — on every network, exactly;
+    (3) processor — for leaf legs meeting `LeafSpec` (what `simplify_single_terms` leaves, batch
+    indices `B` removed ⇒ figures of the network without `B`);
+    (4) hypergraph — for networks without repeated indices, after any replayed sequence; the pair
+    cost under the no-dangling guard. -/
+theorem four_rules_agree (n : Net) (l r : BT) (hd : (BT.node l r).leaves.Nodup)
+    (hb : ∀ i ∈ (BT.node l r).leaves, i < n.inputs.length) :
+    -- (1) tree
+    (∀ e, e ∈ keys (n.legs [] (.node l r)) ↔ n.Surv [] (.node l r) e) ∧
+    -- (2) annealing
+    Anneal.info n (n.legs [] l) (n.legs [] r) =
+      (n.legs [] (.node l r), n.nodeFlops [] (.node l r), n.nodeSize [] (.node l r)) ∧
+    -- (3) processor
+    (∀ (leafL : Nat → PLegs), (∀ i ∈ (BT.node l r).leaves, LeafSpec n [] leafL i) →
+      (∀ e, e ∈ keys (procLegs n leafL (.node l r)) ↔ n.Surv [] (.node l r) e) ∧
+      Proc.size n.size (procLegs n leafL (.node l r)) = n.nodeSize [] (.node l r) ∧
+      procFlops n leafL (.node l r) = n.nodeFlops [] (.node l r)) ∧
+    -- (4) hypergraph
+    (NoRepeat n → ∀ (path : List (Nat × Nat)) (h : HG) (F : Forest) (k : Nat) (inds : List Ix),
+      hgRun n path = some (h, F) → AL.get? F k = some (.node l r) → AL.get? h.nodes k = some inds →
+      (∀ e, e ∈ inds ↔ n.Surv [] (.node l r) e) ∧ h.nodeSize k = n.nodeSize [] (.node l r)) := by
+  refine ⟨fun e => Net.mem_legs_iff_surv n [] _ hd hb e, anneal_at_node n [] l r, ?_, ?_⟩
+  · intro leafL hl
+    obtain ⟨h1, h2, h3⟩ := proc_eq_tree n [] leafL l r hd hb hl
+    exact ⟨h3, h1, h2⟩
+  · intro hnr path h F k inds hrun hF hN
+    obtain ⟨_, h2, _, h4⟩ := hg_contract_legs n hnr path h F hrun k l r inds hF hN
+    exact ⟨h2, h4⟩
+
+/-! ## non-vacuity -/
+
+def exNet : Net :=
+  { inputs := [[0, 1], [1, 2, 4], [2, 3, 4], [4, 5]], output := [0, 4],
+    sizes := [(0, 2), (1, 3), (2, 4), (3, 1), (4, 2), (5, 3)] }
+def exTree : BT := .node (.node (.leaf 0) (.leaf 1)) (.node (.leaf 2) (.leaf 3))
+
+example : exTree.leaves.Nodup ∧ (∀ i ∈ exTree.leaves, i < exNet.inputs.length) := by decide
+example : ∀ i ∈ exTree.leaves, (exNet.term i).Nodup := by decide
+/-- the hypergraph replay of the example runs and creates the nodes 4, 5, 6 -/
+example : (hgRun exNet [(0, 1), (2, 3), (4, 5)]).map (fun st => st.1.nodes) = some [(6, [0, 4])] := by decide
+/-- the processor's total on the example equals the tree's (no index on all tensors) -/
+example : procTotal exNet (procLeaf exNet []) exTree = (exNet.stats [] [] exTree).flops := by decide
 
 end Cotengra.C18
